@@ -1,5 +1,253 @@
-"""HTTP surface (C12-R2, C17, C18, C19): placeholder until AdminAPI.tla is built."""
+"""HTTP surface of the real server (C17, C18, C11-A5, C12-R2): AdminAPI.tla's routing table (method x endpoint x credential, enumerated
+completely by TLC) sent as real requests; seeded update / optimistic-concurrency sequences with every If-Match / If-None-Match form;
+a crash at every named point of the definition-file rewrite; WHIP sessions.  Trace_Http judges."""
+import json, os, random
+import common as C
+
+S1, S2, S3, S4, S5, S6 = "SENTroot7q", "SENTalice3x", "SENTbobpw9k", "SENTgadm4w", "SENToper5v", "SENTwild8m"
+KSENT, HSENT, SALT = "U0VOVGtleW1hdGVyaWFsMTIzNDU2Nzg5MDEyMzQ1Ng", "53454e5468617368aabbccddeeff00112233445566778899aabbccddeeff0011", "53454e5473616c74"
+SENTINELS = [S1, S2, S3, S4, S5, S6, KSENT, HSENT, SALT, "SENThadm2z", "SENTcarol"]
+PREFIX = {"C17": ("C17_",), "C18": ("C18_",), "C12": ("C12_",), "C11": ("C11_",)}
+
+
+def fixture():
+    g = {"displayName": "group g", "users": {
+        "alice": {"password": S2, "permissions": "present"},
+        "bob": {"password": S3, "permissions": "present"},
+        "carol": {"password": {"type": "pbkdf2", "hash": "sha-256", "key": HSENT, "salt": SALT, "iterations": 2}, "permissions": "message"},
+        "oper": {"password": S5, "permissions": "op"},
+        "gadmin": {"password": S4, "permissions": "admin"},
+        "obs": {"password": "obspw", "permissions": "observe"}},
+        "wildcard-user": {"password": S6, "permissions": "message"},
+        "authKeys": [{"kty": "oct", "alg": "HS256", "k": KSENT, "kid": "k1"}]}
+    h = {"users": {"hadmin": {"password": "SENThadm2z", "permissions": "admin"}, "bob": {"password": "hb", "permissions": "present"}}}
+    toks = [{"token": "tokh", "group": "h", "username": "tokadm", "permissions": ["admin"], "expires": "2099-01-01T00:00:00Z"},
+            {"token": "toking", "group": "g", "username": "tokadm", "permissions": ["admin"], "expires": "2099-01-01T00:00:00Z"},
+            {"token": "tokroot", "group": "", "includeSubgroups": True, "username": "tokadm", "permissions": ["admin"], "expires": "2099-01-01T00:00:00Z"},
+            {"token": "tokg1", "group": "g", "username": "tu", "permissions": ["present"], "expires": "2099-01-01T00:00:00Z"},
+            {"token": "whiptok", "group": "g", "username": "whipper", "permissions": ["present"], "expires": "2099-01-01T00:00:00Z"}]
+    return {"files": {"groups/g.json": json.dumps(g), "groups/h.json": json.dumps(h),
+                      "data/config.json": json.dumps({"writableGroups": True, "users": {"root": {"password": S1, "permissions": "admin"}}}),
+                      "data/var/tokens.jsonl": "".join(json.dumps(t) + "\n" for t in toks)},
+            "sentinels": SENTINELS}
+
+
+PATH = {"stats": "/galene-api/v0/.stats", "grouplist": "/galene-api/v0/.groups/", "group": "/galene-api/v0/.groups/g",
+        "users": "/galene-api/v0/.groups/g/.users/", "user": "/galene-api/v0/.groups/g/.users/alice", "wildcard": "/galene-api/v0/.groups/g/.wildcard-user",
+        "emptyuser": "/galene-api/v0/.groups/g/.empty-user", "password": "/galene-api/v0/.groups/g/.users/alice/.password",
+        "wildpassword": "/galene-api/v0/.groups/g/.wildcard-user/.password", "keys": "/galene-api/v0/.groups/g/.keys",
+        "tokens": "/galene-api/v0/.groups/g/.tokens/", "token": "/galene-api/v0/.groups/g/.tokens/tokg1", "unknownkind": "/galene-api/v0/.groups/g/.bogus",
+        "unknownsub": "/galene-api/v0/.groups/g/.users/alice/.bogus", "v1": "/galene-api/v1/.stats", "badversion": "/galene-api/.stats",
+        "othergroup": "/galene-api/v0/.groups/h", "otherpassword": "/galene-api/v0/.groups/h/.users/bob/.password"}
+ADDR = {"group": "g:desc", "user": "g:user:alice", "wildcard": "g:wild", "password": "g:pw:alice", "wildpassword": "g:wildpw", "keys": "g:keys",
+        "othergroup": "h:desc", "otherpassword": "h:pw:bob"}
+BODY = {"group": ('{"displayName":"changed"}', "application/json"), "user": ('{"permissions":"message"}', "application/json"),
+        "wildcard": ('{"permissions":"observe"}', "application/json"), "emptyuser": ('{"permissions":"observe"}', "application/json"),
+        "password": ('"newpw1"', "application/json"), "wildpassword": ('"newpw2"', "application/json"), "otherpassword": ('"newpw3"', "application/json"),
+        "keys": ('{"keys":[]}', "application/jwk-set+json"), "tokens": ('{"permissions":["present"],"expires":"2099-01-01T00:00:00Z","username":"nn"}', "application/json"),
+        "token": ('{"permissions":["present"],"expires":"2098-01-01T00:00:00Z","username":"tu"}', "application/json"),
+        "othergroup": ('{"displayName":"changed"}', "application/json")}
+CRED = {"none": ({}, "", ""), "wrongpw": ({}, "root", "nope"), "user": ({}, "bob", S3), "op": ({}, "oper", S5), "otheradmin": ({}, "hadmin", "SENThadm2z"),
+        "gadmin": ({}, "gadmin", S4), "root": ({}, "root", S1), "tokout": ({"Authorization": "Bearer tokh"}, "", ""),
+        "tokin": ({"Authorization": "Bearer toking"}, "", ""), "tokroot": ({"Authorization": "Bearer tokroot"}, "", ""), "selfpw": ({}, "whoever", S2)}
+X0 = {"class": "serve", "addr": "any", "g": "", "editor": "", "form": "none", "hdr": "", "expected": 0, "granted": 0}
+
+
+def request(name, m, e, c, extra_headers=None, body=None):
+    h, u, p = CRED[c]
+    h = dict(h)
+    b, ct = BODY.get(e, ("", ""))
+    if m in ("PUT", "POST"):
+        if e == "password" and m == "POST":
+            b, ct = "posted-pw", "text/plain"
+        if ct:
+            h["Content-Type"] = ct
+    else:
+        b = ""
+    if body is not None:
+        b = body
+    h.update(extra_headers or {})
+    return ["http", name, m, PATH[e], h, b, u, p]
+
+
+def table_behaviours(rows):
+    meta, behs = {}, []
+    quiet = [r for r in rows if r["expect"] != "serve"]
+    steps = []
+    for i, r in enumerate(quiet):
+        n = "q%d" % i
+        steps.append(request(n, r["m"], r["e"], r["c"]))
+        meta[n] = dict(X0, **{"class": r["expect"]})
+    behs.append({"name": "routing-table-refusals", "fixture": fixture(), "steps": steps})
+    serve = [r for r in rows if r["expect"] == "serve"]
+    order = {m: i for i, m in enumerate(["GET", "HEAD", "TRACE", "PATCH", "POST", "PUT", "DELETE"])}
+    for e in sorted({r["e"] for r in serve}):
+        st = []
+        for r in sorted([r for r in serve if r["e"] == e], key=lambda r: (order.get(r["m"], 9), r["c"])):
+            n = "s-%s-%s-%s" % (e, r["m"], r["c"])
+            st.append(request(n, r["m"], e, r["c"]))
+            a = ADDR.get(e, "any") if r["m"] in ("PUT", "POST", "DELETE") else ("any" if e in ("tokens", "token", "emptyuser") else ADDR.get(e, "any"))
+            meta[n] = dict(X0, **{"class": "serve", "addr": a if r["m"] in ("PUT", "POST", "DELETE") else "none"})
+            if meta[n]["addr"] == "none":
+                meta[n]["addr"] = "g:nothing"
+        behs.append({"name": "routing-table-served-" + e, "fixture": fixture(), "steps": st})
+    return behs, meta
+
+
+FORMS = ["exact", "exact", "exact", "list-containing", "list-not-containing", "weak", "star", "malformed", "empty-quoted"]
+OBJ = {"group": "group", "user": "user", "newuser": None, "password": "password", "keys": "keys", "wildcard": "wildcard"}
+
+
+def sequences(seed, n):
+    """optimistic-concurrency sequences: GETs capture tags, conditional PUT/DELETEs use them in every header form"""
+    r = random.Random(seed)
+    behs, meta = [], {}
+    for b in range(n):
+        st, gets, k = [], [], 0
+        for i in range(28):
+            k += 1
+            e = r.choice(["group", "user", "user", "password", "keys", "wildcard", "group"])
+            kind = r.choice(["get", "get", "get", "put", "put", "put", "delete", "inm"])
+            name = "b%d-%d" % (b, k)
+            if kind == "get" or not gets:
+                ge = r.choice(["group", "user"])
+                hdrs = {}
+                x = dict(X0, **{"g": "g", "editor": name, "addr": "g:nothing"})
+                if gets and r.random() < 0.5:
+                    f = r.choice(FORMS)
+                    src = r.choice(gets)
+                    hdrs["If-None-Match"] = header_value(f, src)
+                    x.update({"form": f, "hdr": "If-None-Match", "editor": src})
+                    # this GET also captures a tag; it is held under the GET's own name when served with 200
+                st.append(request(name, "GET", ge, "root", hdrs))
+                meta[name] = x
+                if not hdrs:
+                    gets.append(name)
+                continue
+            f = r.choice(FORMS)
+            src = r.choice(gets)
+            if kind == "inm":
+                # creation that must not overwrite: If-None-Match: *
+                ue = r.choice(["user", "group"])
+                st.append(request(name, "PUT", ue, "root", {"If-None-Match": "*"}))
+                meta[name] = dict(X0, **{"g": "g", "editor": src, "form": "star", "hdr": "If-None-Match", "addr": ADDR[ue]})
+                continue
+            m = "PUT" if kind == "put" else "DELETE"
+            if e == "group" and m == "DELETE" and r.random() < 0.7:
+                m = "PUT"
+            if e in ("password", "keys") and m == "DELETE":
+                m = "PUT"
+            body = None
+            if e == "group":
+                body = json.dumps({"displayName": "v%d" % k, "description": "x" * (k % 7)})
+            elif e == "user":
+                body = json.dumps({"permissions": r.choice(["present", "message", "observe"])})
+            elif e == "password":
+                body = json.dumps("pw-%d" % k)
+            st.append(request(name, m, e, "root", {"If-Match": header_value(f, src)}, body))
+            meta[name] = dict(X0, **{"g": "g", "editor": src, "form": f, "hdr": "If-Match", "addr": ADDR[e]})
+        behs.append({"name": "update-sequence-%d" % b, "fixture": fixture(), "steps": st})
+    return behs, meta
+
+
+def header_value(form, src):
+    return {"exact": "$etag:" + src, "list-containing": "$list:" + src, "list-not-containing": "$listnot:" + src, "weak": "$weak:" + src,
+            "star": "*", "malformed": "garbage-no-quotes", "empty-quoted": '""'}[form]
+
+
+def crashes():
+    behs, meta = [], {}
+    for i, point in enumerate(["description.rewrite.created", "description.rewrite.encoded", "description.rewrite.synced",
+                               "description.rewrite.closed", "description.rewrite.renamed"]):
+        for (e, m) in (("group", "PUT"), ("user", "PUT"), ("password", "PUT")):
+            n = "c%d-%s" % (i, e)
+            st = [request(n + "-before", "GET", "group", "root"), request(n, m, e, "root"), ["sleep", 30], ["files"],
+                  request(n + "-after", "GET", "group", "root"), request(n + "-user", "GET", "user", "root"), ["files"]]
+            meta[n + "-before"] = dict(X0, **{"g": "g", "addr": "g:nothing"})
+            meta[n] = dict(X0, **{"class": "crash", "g": "g", "addr": "any"})
+            meta[n + "-after"] = dict(X0, **{"g": "g", "addr": "any"})
+            meta[n + "-user"] = dict(X0, **{"g": "g", "addr": "any"})
+            behs.append({"name": "crash-%s-%s" % (point, e), "fixture": fixture(), "steps": st, "crash": point, "expect_dead": 1})
+    return behs, meta
+
+
+def whips():
+    st = [["whip", "w1", "g", "whiptok", "", ""], ["whipreq", "w1", "PATCH", "none", "whiptok"], ["whipreq", "w1", "DELETE", "wrong", "whiptok"],
+          ["whipreq", "w1", "DELETE", "none", "whiptok"], ["http", "stats", "GET", "/galene-api/v0/.stats", {}, "", "root", S1],
+          ["whipreq", "w1", "DELETE", "same", "whiptok"],
+          ["whip", "w2", "g", "", "", ""], ["whip", "w3", "g", "", "obs", "obspw"], ["whip", "w4", "g", "", "bob", S3],
+          ["whip", "w5", "g", "tokh", "", ""], ["whip", "w6", "h", "whiptok", "", ""], ["whipreq", "w4", "DELETE", "none", ""]]
+    meta = {"w1": dict(X0, granted=1), "w2": dict(X0, granted=0), "w3": dict(X0, granted=0), "w4": dict(X0, granted=1), "w5": dict(X0, granted=0),
+            "w6": dict(X0, granted=0), "stats": dict(X0, addr="any")}
+    return [{"name": "whip-sessions", "fixture": fixture(), "steps": st}], meta
 
 
 def run_table(rep, w, tier, pid, replay=None):
-    rep.notes.append("HTTP table not built yet")
+    thorough = tier == "thorough"
+    if replay:
+        rp = json.load(open(replay))["replay"]
+        if "http_behaviours" not in rp:
+            return
+        behs, meta = rp["http_behaviours"], rp["meta"]
+    else:
+        r = C.tlc(w, "AdminAPI.tla", "MC_AdminAPI.cfg", workers=1, timeout=900, deadlock=False)
+        rep.model("MC_AdminAPI.cfg (complete table: 8 methods x 18 endpoint shapes x 11 credential kinds, with scope invariants)", r, exhaustive=True)
+        if r.violated:
+            raise C.Inconclusive("AdminAPI table violates " + r.violated)
+        C.must_complete(r, "MC_AdminAPI")
+        rows = r.json_prints("CASE")
+        if not rows:
+            raise C.Inconclusive("no API rows enumerated")
+        behs, meta = table_behaviours(rows)
+        for (bs, mt) in (sequences(C.seed(), 40 if thorough else 8), crashes(), whips()):
+            behs += bs
+            meta.update(mt)
+    script = os.path.join(w, "http_script.json")
+    json.dump(behs, open(script, "w"))
+    binp = C.go_build(w, "./cmd/srvdrive", "srvdrive")
+    trace = os.path.join(w, "trace_http_raw.ndjson")
+    env = dict(C.GOENV)
+    env.update({"VERIF_IN": script, "VERIF_OUT": trace})
+    rc, out, _ = C.run([binp], cwd=w, env=env, timeout=3000)
+    if rc != 0:
+        raise C.Inconclusive("srvdrive (http) failed (exit %d): %s" % (rc, out[-1500:]))
+    events = C.read_ndjson(trace)
+    bi = -1
+    for e in events:
+        if e["ev"] == "New":
+            bi += 1
+        x = dict(meta.get(e.get("name"), X0))
+        if e["ev"] == "dead":
+            x["expected"] = 1 if (0 <= bi < len(behs) and behs[bi].get("expect_dead")) else 0
+        e["x"] = x
+        for k in ("method", "path", "etag", "digest"):
+            e.setdefault(k, "")
+        e.setdefault("parts", [])
+        e.setdefault("leaks", [])
+        e.setdefault("status", 0)
+        e.setdefault("how", "")
+    t2 = os.path.join(w, "trace_http.ndjson")
+    with open(t2, "w") as f:
+        for e in events:
+            f.write(json.dumps(e) + "\n")
+    v = C.tlc_trace(w, "Trace_Http.tla", "Trace_Http.cfg", t2, "trace_http.ndjson", timeout=3000)
+    reqs = [e for e in events if e["ev"] == "http"]
+    rep.traces(v.nbeh)
+    rep.cov["http_requests"] = len(reqs)
+    rep.cov["http_status_histogram"] = {str(k): sum(1 for e in reqs if e["status"] == k) for k in sorted({e["status"] for e in reqs})}
+    rep.cov["crash_points_exercised"] = sorted({b.get("crash") for b in behs if b.get("crash")})
+    rep.cases(len(events), len({json.dumps([e.get("method"), e.get("path"), e["x"].get("class"), e.get("status"), e["x"].get("form"), e["x"].get("hdr")]) for e in reqs}))
+    rep.cov["rule"] = (rep.cov.get("rule", "") + " | http: one evaluation = one real HTTP request to the real server; distinct = distinct (method, path, row class, status, header form) tuples").strip(" |")
+    if reqs:
+        rep.sample({k: reqs[0][k] for k in ("method", "path", "status", "x")})
+        cw = [e for e in reqs if e["x"].get("hdr") == "If-Match"]
+        if cw:
+            rep.sample({k: cw[0][k] for k in ("method", "path", "status", "etag", "x")})
+    for (line, nb, clause) in v.bads:
+        e = events[line - 1]
+        if clause.startswith(PREFIX[pid]):
+            b = behs[nb - 1] if 0 < nb <= len(behs) else None
+            rep.violation("%s at line %d (behaviour '%s'): %s" % (clause, line, b["name"] if b else "", json.dumps({k: e.get(k) for k in ("ev", "name", "method", "path", "status", "leaks", "x", "how", "body")})[:600]),
+                          {"http_behaviours": [b] if b else [], "meta": {k: meta[k] for k in meta if b and any(len(s) > 1 and s[1] == k for s in b["steps"])}})
+        else:
+            rep.notes.append("clause %s of another property failed at line %d" % (clause, line))
